@@ -65,7 +65,11 @@ func (fp *FilePath) Write(b []byte) (n int, err error) {
 
 	for i := 0; i < int(binary.BigEndian.Uint16(fp.ItemCount[:])); i++ {
 		var fpi FilePathItem
-		scanner.Scan()
+		// A path that announces more items than it holds is rejected.  (Ignoring the result here let the scanner
+		// hand back its previous token for every missing item, up to 65,535 times.)
+		if !scanner.Scan() {
+			return n, errors.New("file path has fewer items than its item count")
+		}
 
 		// Make a new []byte slice and copy the scanner bytes to it.  This is critical to avoid a data race as the
 		// scanner re-uses the buffer for subsequent scans.
